@@ -5,6 +5,7 @@ pub mod c05;
 pub mod c06;
 pub mod c07;
 pub mod c31;
+pub mod c32;
 pub mod c33;
 pub mod c34;
 pub mod c35;
@@ -24,6 +25,7 @@ pub const ALL: &[Property] = &[
     Property { id: "C06", level: "exploration", build: c06::build },
     Property { id: "C07", level: "exploration", build: c07::build },
     Property { id: "C31", level: "exploration", build: c31::build },
+    Property { id: "C32", level: "exploration", build: c32::build },
     Property { id: "C33", level: "exploration", build: c33::build },
     Property { id: "C34", level: "exploration", build: c34::build },
     Property { id: "C35", level: "exploration", build: c35::build },
@@ -34,4 +36,9 @@ pub const ALL: &[Property] = &[
 pub fn find(id: &str) -> Option<&'static Property> {
     ALL.iter().find(|p| p.id == id)
 }
-pub fn child_main(_args: &[String]) -> i32 { 2 }
+pub fn child_main(args: &[String]) -> i32 {
+    match args[0].as_str() {
+        "--child-parse" => c32::child_parse(&args[1]),
+        _ => 2,
+    }
+}
